@@ -482,6 +482,9 @@ class History:
                                   f"{tk['hstatus']}): the child was cancelled before its first step, so TaskHandle._run_coro "
                                   f"never ran and nobody will ever set the handle's finished event",
                            tag="never_ran_handle_pending" if m in self._native_before_start else None)
+                elif tk["hstatus"] in (3, 4):
+                    self.v("C01", f"step {i}: child {m} was cancelled before its first step, but its handle reports status "
+                                  f"{tk['hstatus']} (finished / failed) for a coroutine that never ran")
             elif tk["hstatus"] in (1, 2):
                 self.v("C01", f"step {i}: group {g} block left while the handle of child {m} is not final (status {tk['hstatus']})")
             elif m in finished_with:
@@ -961,6 +964,22 @@ def scheck(pid: str, tier: str, extra_assumptions=None, known=None) -> int:
         import deep_directed                 # nesting deeper than the recursion limit (outside the model)
         eager_hits += deep_directed.run_all()
         real_flags["deep_nesting_scenarios"] = 2
+    if pid == "C02":
+        import deep_directed                 # an error below 3500 nested groups (outside the model, F52)
+        eager_hits += deep_directed.run_c02()
+        real_flags["deep_nesting_scenarios"] = 1
+    if pid in ("C02", "C04"):
+        import native_directed               # asyncio.gather() / awaited native tasks inside a scope (outside the model)
+        eager_hits += native_directed.run_all(pid)
+        real_flags["native_construct_scenarios"] = len(native_directed.SCENARIOS[pid])
+    directed_known = []
+    for name, msg in list(eager_hits):
+        kf = known_tag(pid, msg)
+        if kf:
+            rep.known_finding(kf)
+            known_seen[kf] = known_seen.get(kf, 0) + 1
+            directed_known.append(name)
+            eager_hits.remove((name, msg))
 
     # kernel-checked sample (short cases keep vm_compute fast)
     idx = sorted(range(len(cases)), key=lambda i: len(cases[i]))[: (25 if tier == "quick" else 120)]
@@ -984,7 +1003,8 @@ def scheck(pid: str, tier: str, extra_assumptions=None, known=None) -> int:
         rep.violation(f"[{cfg} loop] " + msg, {"kind": "monitor-real-loop", "config": cfg, "ops": rw.ops,
                                                "ops_readable": sgen.readable(rw.ops)[:200]})
     for name, msg in eager_hits[:2]:
-        kind = "directed-deep" if "depth=" in name else ("directed-thread" if name.startswith("thread/") else "directed-eager")
+        kind = "directed-deep" if "depth=" in name else ("directed-thread" if name.startswith("thread/") else
+                                                         ("directed-native" if name.startswith("native/") else "directed-eager"))
         rep.violation(f"[directed scenario {name}] {msg}", {"kind": kind, "scenario": name,
                                                               "replay": f"harness/{kind.split('-')[1]}_directed.py runs the scenario"})
     tie = []
@@ -1042,9 +1062,16 @@ def sreplay(pid: str, path: str) -> int:
         for n, m in r:
             print(f"MONITOR {pid}: [{n}] {m}")
         return 1 if r else 0
+    if data.get("kind") == "directed-native":
+        import native_directed
+        r = [(n, m) for n, m in native_directed.run_all(pid) if n == data.get("scenario") and not known_tag(pid, m)]
+        for n, m in r:
+            print(f"MONITOR {pid}: [{n}] {m}")
+        return 1 if r else 0
     if data.get("kind") == "directed-deep":
         import deep_directed
-        r = deep_directed.run_all()
+        r = deep_directed.run_c02() if str(data.get("scenario", "")).startswith("leaf_error") else deep_directed.run_all()
+        r = [(n, m) for n, m in r if not known_tag(pid, m)]
         for n, m in r:
             print(f"MONITOR {pid}: [{n}] {m}")
         return 1 if r else 0
